@@ -129,6 +129,20 @@ def oracle(c):
         b = T.run_script(fresh, s, tol, [6, 0, 1, 1], False)
         if a != b:
             return ('derived-tokens-differ-from-fresh', {'derived': a, 'fresh': b, 'tolerant': tol})
+    # ONE token reader handed every state of the chain in turn, each built for the occasion and dropped afterwards
+    # (what the parsers do when they probe for optional arguments): each reads like a reader of its own
+    from pylatexenc.latexnodes import LatexTokenReader
+    nst = len(d['chain']) + 1
+    for tol in (False, True):
+        tr = LatexTokenReader(s, tolerant_parsing=tol)
+        for k in list(range(nst)) + list(range(nst - 1, -1, -1)) + list(range(nst)):
+            pk, _ = T.make_state(base, d['chain'][:k], s)
+            got = T.run_script_from(tr, pk, s)
+            want = T.run_script(pk, s, tol, [6], False)
+            del pk
+            if got != want:
+                return ('shared-reader-tokens-differ-from-own-reader', {'chain_prefix': k, 'shared_reader': got,
+                                                                        'own_reader': want, 'tolerant': tol})
     # requested values are in effect (modulo the documented reset of a delimiter without math mode)
     if d['chain']:
         f = ps.get_fields()
